@@ -58,8 +58,9 @@ MUTANTS = [
     ("m16_workplace_content_not_recorded_at_absence", ["C08"], M + "base_organization.py",
      "            workplace.record_placed_component_id()\n",
      "            if working:\n                workplace.record_placed_component_id()\n", None),
-    ("m17_finish_check_iterates_set", ["C09"], M + "base_workflow.py",
-     "        working_and_zero_task_list = list(\n", "        working_and_zero_task_list = set(\n", None),
+    ("m17_finish_check_single_pass_over_set", ["C09"], M + "base_workflow.py",
+     "        while newly_finished:\n            newly_finished = False\n            for task in working_and_zero_task_list:",
+     "        for _ in range(1):\n            for task in set(working_and_zero_task_list):", None),
     ("m18_allocate_during_absence", ["C10"], M + "base_project.py",
      "            if working:\n                self.__allocate(", "            if True:\n                self.__allocate(", None),
     ("m19_absent_worker_charged", ["C10", "C07"], M + "base_team.py",
@@ -96,9 +97,9 @@ MUTANTS = [
     ("m30_subproject_duration_ignores_remove_flag", ["C20"], M + "base_subproject_task.py",
      "        # remove absence_time_list info\n        if remove_absence_time_list:\n            project.remove_absence_time_list()\n",
      "        duration = project.time\n        # remove absence_time_list info\n        if remove_absence_time_list:\n            project.remove_absence_time_list()\n        project.time = duration\n", None),
-    ("m31_pause_resume_double_first_step_cost", ["C15", "C08"], M + "base_project.py",
-     "        if log_info:\n            self.time = 0\n            self.cost_list = []",
-     "        if log_info or self.time == 0:\n            self.time = 0\n            self.cost_list = []", None),
+    ("m31_team_cost_reset_on_resume", ["C15", "C08"], M + "base_team.py",
+     "        if log_info:\n            self.cost_list = []\n        for w in self.worker_list:",
+     "        self.cost_list = []\n        for w in self.worker_list:", None),
     ("m32_success_reported_with_unfinished_auto", ["C05"], M + "base_project.py",
      "            state_list = list(map(lambda task: task.state, self.workflow.task_list))",
      "            state_list = list(\n                map(\n                    lambda task: task.state,\n                    filter(lambda t: not (t.auto_task and t.default_work_amount == 0), self.workflow.task_list),\n                )\n            )", None),
